@@ -88,7 +88,7 @@ var Names = []string{"a", "b", "c"}
 
 const NStates = 6
 
-var jqPool = []string{"", "", "", ".data", ".data", "{p: .data.p}", "{p: .data.p}", "{l: .metadata.labels}", ".data.v", ".metadata.labels"}
+var jqPool = []string{"", "", "", ".data", ".data", "{p: .data.p}", "{p: .data.p}", "{l: .metadata.labels}", ".data.v", ".metadata.labels", "."}
 
 // Body of an object in a state: data.v identifies the state, data.p is a coarser projection.
 func Body(state int) map[string]any {
@@ -137,7 +137,8 @@ func Gen(t *rapid.T) Case {
 		}
 		if len(hs.Kube) >= 2 && rapid.IntRange(0, 3).Draw(t, "grouppair") == 0 {
 			hs.Kube[0].OnlyNs, hs.Kube[1].OnlyNs = "default", ""
-			hs.Kube[0].Queue, hs.Kube[1].Queue = "", ""
+			// (Synchronization tasks run in the main queue whatever the binding's queue is)
+			hs.Kube[0].Queue, hs.Kube[1].Queue = rapid.SampledFrom([]string{"", "", "q1"}).Draw(t, "gpq0"), ""
 			groupPair = true
 			if rapid.Bool().Draw(t, "gsyncfail") {
 				hs.SyncFails = 1
